@@ -122,7 +122,7 @@ func c02SitesGen(g *hx.Gen) {
 		case 0:
 			return 0
 		case 1:
-			return 1 << r.Intn(11)
+			return 1 << r.Intn(stBits)
 		}
 		return r.Intn(stAll + 1)
 	}
@@ -171,11 +171,11 @@ func c02SitesGen(g *hx.Gen) {
 	}
 	// every spelling on its own (and all together), on the configuration the property text suggests:
 	// a site whose root does not contain the Casketfile first, the one that does after it
-	for bit := -1; bit <= 11; bit++ {
+	for bit := -1; bit <= stBits; bit++ {
 		style := 0
-		if bit >= 0 && bit < 11 {
+		if bit >= 0 && bit < stBits {
 			style = 1 << bit
-		} else if bit == 11 {
+		} else if bit == stBits {
 			style = stAll
 		}
 		for _, order := range [][2]string{{"/w/other", "/w/site"}, {"/w/site", "/w/other"}} {
@@ -255,7 +255,7 @@ func c02SitesEval(f []string) (string, []string) {
 			default:
 				tags = append(tags, "casketfile-outside")
 			}
-			for bit, name := range []string{"root-slash", "root-detour", "root-quoted", "root-last", "addr-lines", "host-upper", "index-lines", "root-decoy", "comments", "browse-path", "shuffle"} {
+			for bit, name := range stNames {
 				if bl.style&(1<<bit) != 0 {
 					tags = append(tags, "style="+name)
 				}
